@@ -192,7 +192,7 @@ func checkC17(run *mon.Run, rng *mon.Rand, thorough bool) {
 	run.Rule = "differential cases against an independent Keccak/ADR-028 implementation (itself pinned to python hashlib vectors); a case is non-trivial and distinct by (function, input-class, layout) where input classes are lattice/boundary classes of the arguments"
 	run.Assumptions = []string{"python3 hashlib SHA3-256/SHA-256 (used once to pin vectors) is correct", "hash collisions are not searched for"}
 	for _, c := range []string{"vectors.ref", "vectors.chain", "diff.leaf", "diff.node", "diff.node.commutative", "diff.root", "diff.output_root", "diff.l2denom", "diff.bridge_addr",
-		"purity.args_unchanged", "purity.layout_independent", "handler.layout_independent"} {
+		"purity.args_unchanged", "purity.layout_independent", "handler.layout_independent", "handler.leaf_commits_strings_verbatim"} {
 		run.Declare(c, 1)
 	}
 
@@ -497,6 +497,10 @@ func c17Handler(run *mon.Run, rng *mon.Rand, thorough bool) {
 		ws := make([]Withdrawal, nLeaves)
 		for i := range ws {
 			ws[i] = Withdrawal{BridgeID: 1, Seq: uint64(t*100 + i + 1), From: fmt.Sprintf("l2user%d", i), To: user.String(), Denom: "uinit", Amount: uint64(1 + rng.Intn(1000))}
+			if i%3 == 1 {
+				// the documented leaf commits the address strings as given; the same account in bech32's all-upper-case spelling
+				ws[i].To = strings.ToUpper(user.String())
+			}
 		}
 		// fund escrow through a real deposit
 		total := uint64(0)
@@ -528,8 +532,13 @@ func c17Handler(run *mon.Run, rng *mon.Rand, thorough bool) {
 				}
 				tr := map[string]interface{}{"tree_size": nLeaves, "leaf": i, "layout": layoutNames[lay], "result": res.ErrString()}
 				run.Check("purity.args_unchanged", intact, "c17.purity.handler_writes_proof", tr, "MsgFinalizeTokenWithdrawal handler modified the caller's proof bytes (layout %s)", layoutNames[lay])
-				_ = w
 			}
+			spelling := "lower-case"
+			if w.To != user.String() {
+				spelling = "upper-case"
+			}
+			run.Check("handler.leaf_commits_strings_verbatim", verdicts[0] == sim.OK, "c17.handler.leaf_not_verbatim", map[string]interface{}{"tree_size": nLeaves, "leaf": i, "to": w.To}, "a claim whose leaf is the documented hash over the given strings (%s receiver) is rejected", spelling)
+			run.Distinct("handler/receiver/" + spelling)
 			if len(base.WithdrawalProofs) >= 2 {
 				same := true
 				for lay := 1; lay < nLayouts; lay++ {
